@@ -375,6 +375,21 @@ def main(tier: str, seed: int) -> int:
         ex_used = ex
         exhaustive_part = "leaves + depth 1 + depth 2 (arity<=2, small leaf set) complete"
     viols = judge_terms(T, ex_used, chk, stats, rng, pair_budget=400000 if tier == "quick" else 4000000)
+    # families of arity 2-4 over three leaves, with repeated members, for every constructor that takes a list: ALL pairs of a
+    # family are compared (x == y against y == x, equal values against equal hashes), also one level down in each constructor
+    lv = dict(leaves(T))
+    a, b, c = lv["NamedType:a"], lv["NamedType:b"], lv["LiteralType:two"]
+    shapes_ = [combo for n_ in (2, 3, 4) for combo in itertools.product("abc", repeat=n_)]
+    mk = {"a": a, "b": b, "c": c}
+    cons = constructors(T)
+    for cname in ("TupleType", "ListType", "SetType", "UnionType", "NamedSequenceType", "CallableType"):
+        build = cons[cname][1]
+        fam = [(f"{cname}({','.join(sh)})", (lambda build=build, sh=sh: build([mk[x]() for x in sh]))) for sh in shapes_]
+        viols += judge_terms(T, fam, chk, stats, rng, pair_budget=len(fam) ** 2 + 1)
+        for outer in ("TupleType", "ListType", "FinalType"):
+            obuild = cons[outer][1]
+            nested = [(f"{outer}({sig})", (lambda obuild=obuild, m=m: obuild([m()]))) for sig, m in fam[: 40]]
+            viols += judge_terms(T, nested, chk, stats, rng, pair_budget=len(nested) ** 2 + 1)
     viols += judge_terms(T, rnd, chk, stats, rng, pair_budget=200000 if tier == "quick" else 3000000)
 
     # classify: known findings are recorded by mechanism (constructor + leaf kinds involved)
